@@ -158,7 +158,7 @@ def run(ctx):
     vlib.import_pymwp()
     n = ctx.n(120, 1200)
     failing, mism, coq_cases, recs = [], [], [], []
-    kinds = {"rename": 0, "minus": 0, "braces": 0, "dowhile": 0, "order": 0, "loop-rename": 0}
+    kinds = {"rename": 0, "minus": 0, "braces": 0, "dowhile": 0, "order": 0, "loop-rename": 0, "loop-order": 0}
 
     def check(kind, a, b, ren, fin, strict, fname="f"):
         ra, rb = e2e.run_real(a, fin, strict), e2e.run_real(b, fin, strict)
@@ -214,6 +214,18 @@ def run(ctx):
         fin, strict = r.random() < 0.5, r.random() < 0.3
         check("braces", mk(False), mk(True), None, fin, strict)
         loop_check("braces", mk(False), mk(True), strict)
+
+    # directed family (loop mode, function order): a function whose loop fails for every choice / for some choices, and a function with a
+    # well-behaved loop, in both orders (anything a loop leaves behind must not reach the loops analysed after it)
+    for i in range(ctx.n(16, 120)):
+        r = ctx.rng
+        bad = r.choice(["while (z > 0) { x = x * x; }", "while (y > 0) { x = x + x; y = x * x; }", "for (i = 0; i < z; i++) { y = y * y; }",
+                        "while (z > 0) { x = y + x; y = x + y; }", "while (x > 0) { y = y * x; x = y + z; }"])
+        good = r.choice(["while (z > 0) { x = y + z; }", "for (i = 0; i < z; i++) { x = x + y; }", "while (x > 0) { y = z; x = y + y; }",
+                         "while (z > 0) { x = y * z; y = z + z; }"])
+        fb = "int bad(int x, int y, int z, int i)\n{\n  " + bad + "\n}\n"
+        fg = "int good(int x, int y, int z, int i)\n{\n  " + good + ("\n  " + r.choice([good, bad]) if r.random() < 0.3 else "") + "\n}\n"
+        loop_check("order", fg + fb, fb + fg, r.random() < 0.3)
 
     # directed family: a loop whose body holds a statement and then a nested loop that fails for every choice (the analysis leaves the
     # body early there): the result must not depend on an extra pair of braces around the body or around the inner loop
@@ -301,6 +313,8 @@ def run(ctx):
         ab, ba = src + "\n" + src2, src2 + "\n" + src
         for fname in ("f", "g"):
             check("order", ab, ba, None, fin, strict, fname)
+        if i % 2 == 1:
+            loop_check("order", ab, ba, strict)         # loop mode: the loops of f and g, whichever function comes first
     if ctx.coq_ok:
         mism += e2e.coq_compare("c12", coq_cases[: ctx.n(300, 3000)])
     else:
